@@ -145,10 +145,14 @@ impl BlobTree {
         std::fs::create_dir_all(&blobs_folder)?;
         fsync_directory(&blobs_folder)?;
 
-        let blob_file_id_to_continue_with = index
-            .current_version()
+        let version = index.current_version();
+
+        // NOTE: The GC stats may still know blob files that were already dropped from the version,
+        // their IDs must not be reused, or the new blob file would inherit the stale GC stats
+        let blob_file_id_to_continue_with = version
             .blob_files
             .list_ids()
+            .chain(version.gc_stats().keys())
             .max()
             .map(|x| x + 1)
             .unwrap_or_default();
